@@ -144,8 +144,8 @@ def shard(args):
 
 
 def run(tier, seed):
-    reqs = REQS + ['device-information'] if tier == 'quick' else REQS + ['read-write-registers', 'write-coils', 'write-registers', 'device-information']
-    shards = [(k, r, tier) for k in clients.KINDS for r in reqs if r != 'device-information' or tier != 'quick' or 'rtu' in k]
+    reqs = REQS + ['device-information', 'read-max'] if tier == 'quick' else REQS + ['read-max', 'read-write-registers', 'write-coils', 'write-registers', 'device-information']
+    shards = [(k, r, tier) for k in clients.KINDS for r in reqs if tier != 'quick' or (r != 'device-information' or 'rtu' in k) and (r != 'read-max' or k in ('udp', 'tcp'))]
     acc = par.run_shards(shard, shards)
     return dict(acc=acc, level=LEVEL,
                 coverage=dict(
